@@ -14,6 +14,9 @@
   (`DP17.arrays_shape`); the hash table is covered by the correspondence and the direct oracle.
   SSE2: exactly N entries, one per posting, with addresses in the PRP's `8·l + bits(n+max)`-bit range (`SSE2.shape`), so
   equal N give equally large indexes (`SSE2.shape_indistinguishable`); the identifiers are stored in clear by design.
+  PiPtr: the array has `blocks + 1` cells, every occupied one the ciphertext of a full identifier block, and the dictionary
+  is `pointer blocks` entries, all alike (`PiPtr.shape`): equal (blocks, pointer blocks) give identically shaped indexes
+  (`PiPtr.shape_indistinguishable`).
   CT14: the whole index shape is `CT14.shapeFor cfg ⌈log2 N⌉` (`CT14.shape`).
   ANSS16: the whole index shape is `shapeFor cfg ⌈log2 N⌉` (`ANSS16.shape`): number of tables, entries per table and all
   lengths; the level-table bound that makes the padding sufficient (at most 2^(t+1-j) lists at level j) is part of it.
@@ -27,6 +30,7 @@ import SSEPyVerif.Proofs.Schemes.CT14Shape
 import SSEPyVerif.Proofs.Schemes.SSE1Shape
 import SSEPyVerif.Proofs.Schemes.DP17Shape
 import SSEPyVerif.Proofs.Schemes.SSE2Shape
+import SSEPyVerif.Proofs.Schemes.PiPtrShape
 namespace SSEPy.C05
 open SSEPy.Sch SSEPy.Sch.Chain
 
@@ -378,5 +382,50 @@ theorem SSE2.shape_indistinguishable (raw : RawCfg) (cfg : SSE2Cfg) (hcfg : SSE2
     (hN : db.total = db'.total) : I.length = I'.length := by
   rw [(SSE2.shape raw cfg hcfg lv hl K1 db I hs hkeys hvalid hcap).1,
     (SSE2.shape raw cfg hcfg lv hl K1' db' I' hs' hkeys' hvalid' hcap').1, hN]
+
+/-- PiPtr (schemes/CJJ14/PiPtr): THE INDEX SHAPE IS A FUNCTION OF (blocks, pointer blocks) — the array has
+    `Σ_w ⌈|DB(w)|/B⌉ + 1` cells and every occupied cell has the ciphertext length of a FULL block of `B` identifiers (the last,
+    partly filled block of a keyword included: it is padded before it is encrypted); the dictionary has one entry per
+    pointer block, `Σ_w ⌈⌈|DB(w)|/B⌉/b⌉` of them, each a label of the PRF's output length and the ciphertext of a full block
+    of `b` pointers of `⌈log2 |A| / 8⌉` bytes.  For every accepted configuration, key, database of identifiers of the
+    configured size and tape; hypothesis on the run: the dictionary labels are pairwise distinct (no PRF collision —
+    evaluated by the driver). -/
+theorem PiPtr.shape (raw : RawCfg) (cfg : PiPtrCfg) (hcfg : PiPtr.cfgBuild raw = .ok cfg) (lv : Leaves) (hl : LeafLaws lv)
+    (hh : cfg.prfF.hashLen = 20) (K : Bytes) (db : DB) (t t' : Tape) (edb : PiPtrEDB)
+    (h : PiPtr.setup cfg lv K db t = .ok (edb, t'))
+    (hids : ∀ p ∈ db, ∀ id ∈ p.2, id.length = cfg.idSize.toNat)
+    (hn : ∀ sample t0 L A t1, takeNats t = .ok (sample, t0) →
+      PiPtr.encDb cfg lv K (bytesFor (PiPtr.arrayLen cfg db)) db sample (List.replicate (PiPtr.arrayLen cfg db) none) t0
+        = .ok (L, A, t1) → (L.map (·.1)).Nodup) :
+    edb.A.length = PiPtr.arrayLen cfg db ∧
+    (∀ c, some c ∈ edb.A → c.length = PiPtr.clen (cfg.B.toNat * cfg.idSize.toNat)) ∧
+    (edb.D.map fun p => (p.1.length, p.2.length)).Perm
+      (List.replicate (PiPtr.nPtrBlocks cfg db)
+        (cfg.prfF.outputLength.toNat, PiPtr.clen (cfg.b.toNat * bytesFor (PiPtr.arrayLen cfg db)))) := by
+  obtain ⟨pB, pb, pI, _⟩ := PiPtr.cfgBuild_ok cfg raw hcfg
+  exact PiPtr.setup_shape cfg lv hl.enc_len (by rw [hh]; exact hl.hmac_len) (by rw [hh]; decide) pB pb pI K db t t' edb h hids hn
+
+/-- two databases with the same number of identifier blocks and of pointer blocks give identically shaped PiPtr indexes —
+    whatever their keywords, contents and list lengths -/
+theorem PiPtr.shape_indistinguishable (raw : RawCfg) (cfg : PiPtrCfg) (hcfg : PiPtr.cfgBuild raw = .ok cfg) (lv : Leaves)
+    (hl : LeafLaws lv) (hh : cfg.prfF.hashLen = 20) (K K' : Bytes) (db db' : DB) (t t' u u' : Tape) (e e' : PiPtrEDB)
+    (h : PiPtr.setup cfg lv K db t = .ok (e, t')) (h' : PiPtr.setup cfg lv K' db' u = .ok (e', u'))
+    (hids : ∀ p ∈ db, ∀ id ∈ p.2, id.length = cfg.idSize.toNat)
+    (hids' : ∀ p ∈ db', ∀ id ∈ p.2, id.length = cfg.idSize.toNat)
+    (hn : ∀ sample t0 L A t1, takeNats t = .ok (sample, t0) →
+      PiPtr.encDb cfg lv K (bytesFor (PiPtr.arrayLen cfg db)) db sample (List.replicate (PiPtr.arrayLen cfg db) none) t0
+        = .ok (L, A, t1) → (L.map (·.1)).Nodup)
+    (hn' : ∀ sample t0 L A t1, takeNats u = .ok (sample, t0) →
+      PiPtr.encDb cfg lv K' (bytesFor (PiPtr.arrayLen cfg db')) db' sample (List.replicate (PiPtr.arrayLen cfg db') none) t0
+        = .ok (L, A, t1) → (L.map (·.1)).Nodup)
+    (hA : PiPtr.arrayLen cfg db = PiPtr.arrayLen cfg db') (hP : PiPtr.nPtrBlocks cfg db = PiPtr.nPtrBlocks cfg db') :
+    e.A.length = e'.A.length ∧
+    (∀ c c', some c ∈ e.A → some c' ∈ e'.A → c.length = c'.length) ∧
+    (e.D.map fun p => (p.1.length, p.2.length)).Perm (e'.D.map fun p => (p.1.length, p.2.length)) := by
+  obtain ⟨a1, a2, a3⟩ := PiPtr.shape raw cfg hcfg lv hl hh K db t t' e h hids hn
+  obtain ⟨b1, b2, b3⟩ := PiPtr.shape raw cfg hcfg lv hl hh K' db' u u' e' h' hids' hn'
+  refine ⟨by rw [a1, b1, hA], fun c c' hc hc' => by rw [a2 c hc, b2 c' hc'], ?_⟩
+  rw [hA, hP] at a3
+  exact a3.trans b3.symm
 
 end SSEPy.C05
